@@ -1,6 +1,6 @@
 # technique, level text, level note per claimed property (read by mkmanifest.py)
 MODEL_NOTE = ("Trusted: Coq 8.16.1 kernel with vm_compute; standard-library axioms reported by Print Assumptions (copied into the evidence file on every run); "
-              "tools/extract.py, tools/extract_leaf.py, tools/extract_meta.py; the correspondence harness (tools/props, pyval, corr). The Gallina model is tied to /repo on every run in two ways: the bodies of 51 "
+              "tools/extract.py, tools/extract_leaf.py, tools/extract_meta.py; the correspondence harness (tools/props, pyval, corr). The Gallina model is tied to /repo on every run in two ways: the bodies of 52 "
               "functions of the parser (tick arithmetic, tempo / timed / note event constructors and loops, sustains, the first-match dispatcher, the three track builders, the section framer, "
               "Chart.from_file, the metadata scan with its closures, notes_per_second) are regenerated from the source by tools/extract_leaf.py and tools/extract_meta.py (a fail-closed typed translation) and PROVED equal to the model's functions in Tie/Leaf_*.v "
               "(the ones on this property's path are listed as obligations in the evidence); and the per-run correspondence runs model and implementation on the same inputs "
